@@ -264,8 +264,24 @@ def d3_read_sync(ctx):
         cmp_ = find(s.targets[0].slice, ast.Compare)
         if cmp_ and loc_name(cmp_[0].comparators[0]) == "threshold" and loc_name(cmp_[0].left) == "analog":
             ops[type(cmp_[0].ops[0]).__name__] = const_value(s.value)[1]
-    ctx.check(ops == {"Lt": 0, "GtE": 1}, fi, st[0] if st else fi.node, f"threshold stores {ops}", "analog < threshold -> 0 and analog >= threshold -> 1",
-              f"threshold stores {ops} are not the complementary pair (< -> 0, >= -> 1)", key="threshold")
+    single_pass = None
+    if not st and len(parts) == 2:
+        # one-pass form: the analog part of the concatenation is the comparison itself, cast to an integer type
+        b2 = parts[1]
+        inner = b2
+        while isinstance(inner, ast.Call) and call_name(inner) in ("int8", "astype", "uint8", "int16", "asarray", "array") and (inner.args or isinstance(inner.func, ast.Attribute)):
+            inner = inner.func.value if (call_name(inner) == "astype" and isinstance(inner.func, ast.Attribute)) else inner.args[0]
+        inner = expand_name(du, inner, c)
+        if isinstance(inner, ast.Compare) and len(inner.ops) == 1:
+            single_pass = inner
+    if single_pass is not None:
+        okc = isinstance(single_pass.ops[0], ast.GtE) and loc_name(single_pass.left) == "analog" and loc_name(single_pass.comparators[0]) == "threshold"
+        signed = "uint" not in src(parts[1])
+        ctx.check(okc and signed, fi, single_pass, single_pass, "analog lines are 1 where the trace is >= threshold, 0 below (one comparison, signed integer result)",
+                  f"`{src(parts[1])}` is not (analog >= threshold) as a signed integer: samples equal to the threshold flip side / np.diff wraps on unsigned lines", key="threshold")
+    else:
+        ctx.check(ops == {"Lt": 0, "GtE": 1}, fi, st[0] if st else fi.node, f"threshold stores {ops}", "analog < threshold -> 0 and analog >= threshold -> 1",
+                  f"threshold stores {ops} are not the complementary pair (< -> 0, >= -> 1)", key="threshold")
     if len(st) == 2:
         cfg = du.cfg
         first_is_lt = isinstance(find(st[0].targets[0].slice, ast.Compare)[0].ops[0], ast.Lt)
